@@ -199,3 +199,16 @@ reg("C10", "E2-history-bfs",
     "and still 0o444; saved link record == (inode, fresh get_mtime_and_size token).",
     "Tree A holds duplicate and empty contents. No successful reflink on this file system.",
     "DESIGN.md §4 C10")
+
+reg("C05", "E2-history-bfs",
+    "exhaustive enumeration of user mutation vectors x targets x configurations on the real unforced checkout, byte-string accounting against the cache; exhaustive link record/modify/clean-up histories",
+    "Tree A checked out, then every mutation vector over 2 (thorough 3) paths x {untouched, deleted, edited to "
+    "cached content, edited to uncached content, re-typed copy} (+ untracked file) x 6 targets (same, other, "
+    "subset, disjoint, directory->file, file->directory) x both store classes x 3 link types x relink x prompt "
+    "{absent, declining} x state on/off with force off: ~1.2*10^4 (quick) checkouts; every byte string lost from "
+    "the workspace is intact in the cache, every file with uncached content is untouched, a PromptError names "
+    "an untouched path, cache bytes unchanged. Link clean-up: all ~1.4*10^4 histories of length 4 over 12 "
+    "operations (record, modify, touch, replace, remove, edit/add/rename inside a tracked directory, clean-up "
+    "with each used list): clean-up removes only recorded, unused, unmodified paths.",
+    "User mutations happen between library calls. Which error is raised on a refused kind change is not claimed.",
+    "DESIGN.md §4 C05")
